@@ -15,7 +15,7 @@ EXPLANATION = (
     "vertex is all-zero (so fixing vertices - isolated ones, landmarks, all of them - never makes the system singular)."
 )
 BOUNDS = {"quick": "14 structures (none/one/several/all fixed, fixed landmark, fixed vertex without edges, under-constrained free vertex) x max_iter 1..3 (1 for SE(3)) x fix_first_pose", "thorough": "the same structures and all fixed subsets of 5 base graphs x max_iter 1..5"}
-BOUNDS = {k: v + "; 5 two-call histories (flags edited between consecutive optimize() calls on one Graph object); fixed SE(3) vertices with stored quaternions of arbitrary length and sign" for k, v in BOUNDS.items()}
+BOUNDS = {k: v + "; 5 two-call histories (flags edited between consecutive optimize() calls on one Graph object); fixed SE(3) vertices with stored quaternions of arbitrary length and sign; all vertices of a type sharing one pose object; real landmark edges with the fixed sensor pose edited in place between two optimize() calls" for k, v in BOUNDS.items()}
 OUTSIDE = "rounding; IEEE semantics of pose [+] 0 is no longer relied upon (fixed vertices are skipped by the update loop); iteration counts beyond the bound (each iteration is verified from an arbitrary symbolic state)"
 ASSUMPTIONS = ["solver contract as described", "information symmetric", "ids distinct", "chi^2 >= 0"]
 
@@ -125,11 +125,11 @@ HISTORIES = [
 ]
 
 
-def _case(kinds, edges, fixed, ff, max_iter, raw_quat=()):
+def _case(kinds, edges, fixed, ff, max_iter, raw_quat=(), shared_pose=False):
     def fn(P, g):
         np = P.np
         env = install_stubs(P, g, solver=contract_solver(P) if P.symbolic else None)
-        graph, verts, eobjs, ids = structure_graph(P, g, kinds, edges, fixed, symbolic_ids=False, epoch_chi2=True, raw_quat=raw_quat)
+        graph, verts, eobjs, ids = structure_graph(P, g, kinds, edges, fixed, symbolic_ids=False, epoch_chi2=True, raw_quat=raw_quat, shared_pose=shared_pose)
         eff = set(fixed) | ({0} if ff else set())
         init = [v.pose.to_array() for v in verts]
         flags = [v.fixed for v in verts]
@@ -146,6 +146,61 @@ def _case(kinds, edges, fixed, ff, max_iter, raw_quat=()):
         systems = [(A, rhs) for A, rhs, _dx in env.solves] if P.symbolic else [(dense(graph._hessian), -np.array(graph._gradient))]
         check_systems(P, systems, kinds, edges, eobjs, eff)
         P.check("ran", res.num_iterations >= 1 and res.num_iterations <= max_iter)
+
+    return fn
+
+
+def _real_landmark_history(kind):
+    """REAL EdgeLandmark edges, sensor pose fixed, landmark free: everything is evaluated once (and optimized once), the fixed
+    pose is then edited IN PLACE (it stays fixed) and the graph optimized again: the landmark solves the reduced problem of
+    the fixed pose as it is NOW (gradient of an independent chi^2 model w.r.t. the landmark vanishes; one step suffices
+    because the error is affine in the landmark)"""
+
+    def fn(P, g):
+        from .c09 import ref_matrix
+        from .common import POINT_OF, mk_pose
+
+        np = P.np
+        pt = POINT_OF[kind]
+        n = COMPACT[pt]
+        env = install_stubs(P, g, solver=contract_solver(P) if P.symbolic else None)
+        pose = mk_pose(P, g, kind, "sensor", wrapped=True)
+        lm = mk_pose(P, g, pt, "lm")
+        vs = [g.Vertex(0, pose, fixed=True), g.Vertex(1, lm)]
+        es = []
+        for k in range(2):
+            es.append(g.EdgeLandmark([0, 1], P.sym_matrix("om%d" % k, n, psd=True), mk_pose(P, g, pt, "z%d" % k), mk_pose(P, g, kind, "off%d" % k, wrapped=True), offset_id=k))
+        graph = g.Graph(es, vs)
+        import warnings
+
+        with warnings.catch_warnings():
+            warnings.simplefilter("ignore")
+            graph.calc_chi2()
+            graph.optimize(tol=0.0, max_iter=1, fix_first_pose=False, verbose=False)
+            new = mk_pose(P, g, kind, "sensor_new", wrapped=True)
+            vs[0].pose[:] = new.to_array()
+            vs[1].pose = mk_pose(P, g, pt, "lm_restart")
+            # what the graph's edges report now is what fresh edge objects on the same vertices report
+            for k, e in enumerate(es):
+                fresh = g.EdgeLandmark([0, 1], e.information, e.estimate, e.offset, offset_id=k, vertices=vs)
+                P.check_eq("error_at_current_fixed_pose_%d" % k, e.calc_error(), fresh.calc_error())
+                for a, (J1, J2) in enumerate(zip(e.calc_jacobians(), fresh.calc_jacobians())):
+                    P.check_eq("jacobian_at_current_fixed_pose_%d_%d" % (k, a), J1, J2)
+            graph.optimize(tol=0.0, max_iter=1, fix_first_pose=False, verbose=False)
+        P.check_eq("fixed_pose_is_the_edited_one", vs[0].pose.to_array(), new.to_array())
+        if kind == "SE3":
+            return  # the stationarity identity below (degree 6 over two 3-spheres) is not decided by either z3 within 10 minutes
+        l = vs[1].pose.to_array()
+        grad = [0.0] * n
+        for e in es:
+            M = np.dot(ref_matrix(P, g, kind, new), ref_matrix(P, g, kind, e.offset))
+            R = [[M[i][j] for j in range(n)] for i in range(n)]
+            t = [M[i][n] for i in range(n)]
+            err = [sum(R[j][i] * (l[j] - t[j]) for j in range(n)) - e.estimate[i] for i in range(n)]
+            oe = [sum(e.information[i][j] * err[j] for j in range(n)) for i in range(n)]
+            for i in range(n):
+                grad[i] = grad[i] + 2.0 * sum(R[i][j] * oe[j] for j in range(n))
+        P.check_eq("landmark_solves_reduced_problem_of_current_fixed_pose", grad, [0.0] * n, tol=1e-6)
 
     return fn
 
@@ -202,6 +257,12 @@ def cases(tier):
     for s in SE3_STRUCTS:
         for mi in (1,) if tier == "quick" else (1, 2):
             out.append(Case(_name(s, mi), _case(*s, mi), timeout=10, old_timeout=20, validate=1, feas_timeout_ms=1500))
+    for kind in ("SE2", "SE3"):
+        out.append(Case("real-landmark-fixed-pose-edited-" + kind, _real_landmark_history(kind), timeout=30, old_timeout=60, validate=2, feas_timeout_ms=1500, cert_first=True))
+    # every vertex of a pose type is given the SAME pose object (Vertex(i, start) in a loop): the fixed ones still stay put
+    for s in [(["SE2", "SE2", "R2"], [(0, 1), (1, 2)], set(), True), (["R2", "R2", "R2"], [(0, 1), (1, 2)], {1}, False), (["SE3", "SE3"], [(1, 0)], {0}, False)]:
+        for mi in (1, 2) if "SE3" not in s[0] else (1,):
+            out.append(Case("sharedpose_" + _name(s, mi), _case(*s, mi, shared_pose=True), timeout=10, old_timeout=20, validate=1, feas_timeout_ms=1500))
     # fixed SE(3) vertices whose stored quaternion is NOT of unit length (and may have w < 0): still bit-for-bit unchanged
     for s in [(["SE3", "R3"], [(0, 1)], set(), True), (["R3", "SE3"], [(1, 0)], {1}, False)]:
         out.append(Case("rawquat_" + _name(s, 1), _case(*s, 1, raw_quat=(0, 1)), timeout=10, old_timeout=20, validate=1, feas_timeout_ms=1500))
